@@ -755,22 +755,28 @@ Definition w_compile (v : ver) (w : wstate) (o : copt) (ord sord : list string) 
     end
   end.
 
+(* WorkflowNode.AddInput / AddInputWithOptions / AddDependency on the handle of node [to]
+   (End() creates END's handle on first use): the input is only recorded, Compile adds it *)
+Definition w_add_input (w : wstate) (to from : string) (kind : wkind) (fs : list string) : wstate * outcome :=
+  let nodes := if String.eqb to END_ && negb (is_some (alist_get to (w_nodes w)))
+               then alist_set to (mkWN [] MNone []) (w_nodes w) else w_nodes w in
+  match alist_get to nodes with
+  | None => (w, OOk)      (* no handle to call AddInput on: not expressible in Go *)
+  | Some n =>
+    (w_set_nodes (alist_set to (mkWN (wn_pending n ++ [mkWI from kind fs]) (wn_mapped n) (wn_static n)) nodes) w, OOk)
+  end.
+
 Definition wstep (v : ver) (w : wstate) (call : wcall) : wstate * outcome :=
   match call with
   | WAddNode k nk ns =>
     let '(g', _) := g_add_node (w_g w) k nk ns false false in
     (w_set_nodes (alist_set k (mkWN [] MNone []) (w_nodes w)) (w_set_g g' w), OOk)
-  | WAddInput to from kind fs =>
-    let nodes := if String.eqb to END_ && negb (is_some (alist_get to (w_nodes w)))
-                 then alist_set to (mkWN [] MNone []) (w_nodes w) else w_nodes w in
-    match alist_get to nodes with
-    | None => (w, OOk)      (* no handle to call AddInput on: not expressible in Go *)
-    | Some n =>
-      (w_set_nodes (alist_set to (mkWN (wn_pending n ++ [mkWI from kind fs]) (wn_mapped n) (wn_static n)) nodes) w, OOk)
-    end
+  | WAddInput to from kind fs => w_add_input w to from kind fs
   | WAddBranch from ends => (mkW (w_g w) (w_nodes w) (w_branches w ++ [(from, ends)]), OOk)
   | WAddEnd from fs =>
-    let '(g', _) := g_add_edge (w_g w) from END_ false false fs in (w_set_g g' w, OOk)
+    (* the deprecated AddEnd is End().AddInput (since the repair d4925e3: before, it added the
+       edge at once, outside END's check for overlapping mappings) *)
+    w_add_input w END_ from WNormal fs
   | WSetStatic k f =>
     let nodes := if String.eqb k END_ && negb (is_some (alist_get k (w_nodes w)))
                  then alist_set k (mkWN [] MNone []) (w_nodes w) else w_nodes w in
